@@ -402,7 +402,8 @@ class Trig:
         return as_angle(x).sin()
 
     def _cached(self, kind, *args):
-        key = (kind,) + tuple(a.get_id() for a in args)
+        # keyed on the normalised argument, so arccos(-(p.(-q))) and arccos(p.q) are the same atom
+        key = (kind,) + tuple(z3.simplify(a, som=True).get_id() for a in args)
         hit = E.labels.get(key)
         return key, (hit[1] if hit else None)
 
